@@ -26,6 +26,21 @@ pub fn run(data: &[u8], ctx: &mut Ctx) -> Outcome {
     let mut src = Src::new(data);
     let mut cfg = GenCfg::new(4, 30);
     let spec = gen::gen_spec(&mut src, &mut cfg);
+    // one case in ten is the same envelope under 33-40 wrappers: its elements lie deeper than any fixed
+    // traversal limit one might think of. Decided by the generated envelope itself - no choice is drawn.
+    let spec = {
+        let h = crate::src::fnv(&spec_model(&spec).tagged());
+        if h % 10 == 0 {
+            ctx.class("deeply-wrapped(33-40)");
+            let mut s = spec;
+            for _ in 0..33 + (h / 10) % 8 {
+                s = gen::Spec::Wrapped(Box::new(s));
+            }
+            s
+        } else {
+            spec
+        }
+    };
     let model = spec_model(&spec);
     ctx.fingerprint(&model.tagged());
     ctx.sample_with(|| model.show());
